@@ -37,6 +37,9 @@ type vpOut struct {
 	name  string
 	group string
 	alias bool
+	// with As[...] godi registers the service under the interface types only: the concrete type of
+	// output 0 is instantiated but is not an identity
+	hidden bool
 }
 
 type vpDep struct {
@@ -519,7 +522,7 @@ func (w *vpWorld) providerOf(t reflect.Type, name string) (*vpReg, int) {
 			continue
 		}
 		for k, o := range r.outs {
-			if o.typ == t && o.name == name && o.group == "" {
+			if o.typ == t && o.name == name && o.group == "" && !o.hidden {
 				return r, k
 			}
 		}
@@ -533,7 +536,7 @@ func (w *vpWorld) membersOf(t reflect.Type, group string) (rs []*vpReg, ks []int
 			continue
 		}
 		for k, o := range r.outs {
-			if o.typ == t && o.group == group {
+			if o.typ == t && o.group == group && !o.hidden {
 				rs = append(rs, r)
 				ks = append(ks, k)
 			}
@@ -705,6 +708,10 @@ func (r *vpRun) newWorld(rng *rand.Rand) *vpWorld {
 	r.cur = nil
 	w.baseGoroutines = runtime.NumGoroutine()
 	w.coll = NewCollection().(*collection)
+	// a fatal crash (stack overflow of an unbounded resolution) loses what is buffered: flush per scenario
+	r.ops.Flush()
+	r.obs.Flush()
+	r.mon.Flush()
 	r.emit("p new", "ok")
 	return w
 }
@@ -842,6 +849,7 @@ func (r *vpRun) build(w *vpWorld) bool {
 		}
 	}
 	op := strings.TrimSpace("p build " + strings.Join(order, " "))
+	r.monitorVerdict(w, err)
 	if err != nil {
 		r.stats["build_err"]++
 		r.emit(op, w.showErr(err)+w.flushEvents())
@@ -860,6 +868,183 @@ func (r *vpRun) build(w *vpWorld) bool {
 	}
 	r.emit(op, "ok"+w.flushEvents())
 	return true
+}
+
+func (w *vpWorld) describe() string {
+	if os.Getenv("VERIF_DEBUG") == "" {
+		return ""
+	}
+	var b strings.Builder
+	for _, r := range w.regs {
+		fmt.Fprintf(&b, " || reg%d %s %v added=%v outs=", r.idx+1, r.form, r.life, r.added)
+		for _, o := range r.outs {
+			fmt.Fprintf(&b, "(%v,%q,%q,alias=%v)", o.typ, o.name, o.group, o.alias)
+		}
+		b.WriteString(" deps=")
+		for _, d := range r.deps {
+			fmt.Fprintf(&b, "(%v,%q,%q,opt=%v)", d.typ, d.name, d.group, d.optional)
+		}
+	}
+	return b.String()
+}
+
+// referenceVerdict: the verdict Build must give, computed from the harness's own bookkeeping of what it
+// registered (independent of godi's descriptors and of the Lean model): cycle > lifetime > missing > ok
+func (w *vpWorld) referenceVerdict() string {
+	var regs []*vpReg
+	for _, r := range w.regs {
+		if r.added {
+			regs = append(regs, r)
+		}
+	}
+	// providers of a dependency
+	provs := func(d vpDep) (out []*vpReg, builtin bool) {
+		if d.group != "" {
+			rs, _ := w.membersOf(d.typ, d.group)
+			return rs, false
+		}
+		if d.name == "" && (d.typ == contextType || d.typ == scopeType || d.typ == providerType) {
+			return nil, true
+		}
+		if r, _ := w.providerOf(d.typ, d.name); r != nil {
+			return []*vpReg{r}, false
+		}
+		return nil, false
+	}
+	// cycle among registrations (all outputs of a registration share its dependencies)
+	color := map[*vpReg]int{}
+	var dfs func(r *vpReg) bool
+	dfs = func(r *vpReg) bool {
+		color[r] = 1
+		for _, d := range r.deps {
+			ps, _ := provs(d)
+			for _, p := range ps {
+				if color[p] == 1 || (color[p] == 0 && dfs(p)) {
+					return true
+				}
+			}
+		}
+		color[r] = 2
+		return false
+	}
+	for _, r := range regs {
+		if color[r] == 0 && dfs(r) {
+			return "circular"
+		}
+	}
+	for _, r := range regs {
+		if r.life == Scoped {
+			continue
+		}
+		for _, d := range r.deps {
+			ps, _ := provs(d)
+			for _, p := range ps {
+				if p.life == Scoped {
+					return "lifetime"
+				}
+			}
+		}
+	}
+	for _, r := range regs {
+		for _, d := range r.deps {
+			if d.optional || d.group != "" {
+				continue
+			}
+			if ps, b := provs(d); len(ps) == 0 && !b {
+				return "missing"
+			}
+		}
+	}
+	return "ok"
+}
+
+// monitorVerdict compares Build's outcome with the reference verdict (C05, C07, C08) and checks that a
+// reported cycle path is a real cycle of the registered dependency relation (C05)
+func (r *vpRun) monitorVerdict(w *vpWorld, err error) {
+	want := w.referenceVerdict()
+	r.stats["verdict:"+want]++
+	got := "ok"
+	var ce *CircularDependencyError
+	var le *LifetimeConflictError
+	var be *BuildError
+	switch {
+	case err == nil:
+	case errors.As(err, &ce):
+		got = "circular"
+	case errors.As(err, &le):
+		got = "lifetime"
+	case errors.As(err, &be) && be.Phase == "validation" && errors.Is(err, ErrServiceNotFound):
+		got = "missing"
+	default:
+		got = "runtime-failure"
+	}
+	if got == "runtime-failure" {
+		// a constructor fault injected by the scenario is legitimate; anything else on a valid set is not
+		var inj *vpInjected
+		var pe *ConstructorPanicError
+		if want == "ok" && !errors.As(err, &inj) && !errors.As(err, &pe) {
+			w.fail("C08,C06", "Build failed on a valid registration set without any constructor failing: %v", err)
+		}
+		if want != "ok" {
+			w.fail(map[string]string{"circular": "C05", "lifetime": "C07", "missing": "C08"}[want], "Build reached constructors although the registration set is %s", want)
+		}
+		return
+	}
+	if got != want {
+		props := map[string]bool{}
+		for _, v := range []string{got, want} {
+			switch v {
+			case "circular":
+				props["C05"] = true
+			case "lifetime":
+				props["C07"] = true
+			case "missing", "ok":
+				props["C08"] = true
+			}
+		}
+		var ps []string
+		for p := range props {
+			ps = append(ps, p)
+		}
+		sort.Strings(ps)
+		w.fail(strings.Join(ps, ","), "Build verdict %q, the registered dependency relation says %q%s", got, want, w.describe())
+	}
+	if ce != nil {
+		// the reported path must be a closed walk of the dependency relation godi itself recorded
+		edges := map[graphKey][]graphKey{}
+		for _, d := range w.coll.allDescriptors {
+			from := graphKey{d.Type, d.Key, d.Group}
+			for _, dep := range d.Dependencies {
+				edges[from] = append(edges[from], graphKey{dep.Type, dep.Key, dep.Group})
+			}
+		}
+		for gk, members := range w.coll.groups {
+			from := graphKey{gk.Type, nil, gk.Group}
+			for _, m := range members {
+				edges[from] = append(edges[from], graphKey{m.Type, m.Key, m.Group})
+			}
+		}
+		ok := len(ce.Path) >= 2 && ce.Path[0] == ce.Path[len(ce.Path)-1] && ce.Path[0] == ce.Node
+		for i := 0; ok && i+1 < len(ce.Path); i++ {
+			a, b := ce.Path[i], ce.Path[i+1]
+			found := false
+			for _, e := range edges[graphKey{a.Type, a.Key, a.Group}] {
+				if e == (graphKey{b.Type, b.Key, b.Group}) {
+					found = true
+				}
+			}
+			ok = found
+		}
+		if !ok {
+			w.fail("C05", "the reported cycle path %v is not a cycle of the registered dependency relation", ce.Path)
+		}
+	}
+}
+
+type graphKey struct {
+	t reflect.Type
+	k any
+	g string
 }
 
 // a failed Build must have disposed everything it created, exactly once (C10), and report a classifiable error (C15)
@@ -1313,6 +1498,11 @@ func (w *vpWorld) generate(o vpGenOpts) {
 			}
 			if len(reg.outs) == 1 {
 				reg.form = "plain"
+			} else {
+				reg.outs[0].hidden = true
+				if reg.outs[0].name == "" {
+					usedPlain[reg.outs[0].typ] = false
+				}
 			}
 		case "multi":
 			// two or three distinct unkeyed types
@@ -1427,9 +1617,32 @@ func (w *vpWorld) generate(o vpGenOpts) {
 		reg.withErr = rng.Intn(3) == 0
 		for k, out := range reg.outs {
 			_ = k
+			if out.hidden {
+				continue
+			}
 			idents = append(idents, vpIdentity{typ: out.typ, name: out.name, group: out.group, reg: len(w.regs)})
 		}
 		w.regs = append(w.regs, reg)
+	}
+	// seeded cycles: an earlier registration depends on an identity a later one produces
+	if o.defects && len(w.regs) >= 2 && len(idents) > 0 && rng.Intn(2) == 0 {
+		for tries := 0; tries < 6; tries++ {
+			id := idents[rng.Intn(len(idents))]
+			if id.reg == 0 {
+				continue
+			}
+			early := w.regs[rng.Intn(id.reg)]
+			if early.form == "inst" {
+				continue
+			}
+			d := vpDep{typ: id.typ, name: id.name, group: id.group}
+			if d.group == "" && rng.Intn(3) == 0 {
+				d.optional = true // a cycle through an optional dependency is a cycle
+			}
+			early.deps = append(early.deps, d)
+			early.useIn = true
+			break
+		}
 	}
 	// renumber (some iterations were skipped)
 	for i, reg := range w.regs {
@@ -1529,7 +1742,9 @@ func (r *vpRun) scenario(rng *rand.Rand, o vpGenOpts) {
 	var identities []vpIdentity
 	for _, reg := range w.regs {
 		for _, out := range reg.outs {
-			identities = append(identities, vpIdentity{typ: out.typ, name: out.name, group: out.group, reg: reg.idx})
+			if !out.hidden {
+				identities = append(identities, vpIdentity{typ: out.typ, name: out.name, group: out.group, reg: reg.idx})
+			}
 		}
 	}
 	pickScope := func(allowClosed bool) int {
